@@ -4,7 +4,6 @@
    and the acceptance ratio is at most 1 (the latter fails for the normal proposal as coded). *)
 From Coq Require Import Reals Lra Lia.
 From Coquelicot Require Import Coquelicot.
-From Interval Require Import Tactic.
 From CV Require Import Model.C05_SampleR.
 Open Scope R_scope.
 
@@ -62,9 +61,14 @@ Qed.
 Lemma wiring_gamma_rate_as_scale_differs :
   exists Gam shape rate x, 0 < rate /\ 0 < x /\ np_gamma_pdf Gam shape rate x <> cuqi_gamma_pdf Gam shape rate x.
 Proof.
-  exists 1, 1, 2, 1. repeat split; try lra. unfold np_gamma_pdf, cuqi_gamma_pdf.
+  (* at x = 2:  exp(-1)/2  against  2 exp(-4);  they differ because exp 3 > 4 *)
+  exists 1, 1, 2, 2. repeat split; try lra. unfold np_gamma_pdf, cuqi_gamma_pdf.
   replace (1 - 1) with 0 by ring. rewrite Rpower_O by lra. rewrite !Rpower_1 by lra.
-  apply Rgt_not_eq. interval.
+  replace (- (2) / 2) with (- (1)) by field. replace (- (2) * 2) with (- (4)) by ring.
+  assert (H3 : 4 < exp 3) by (pose proof (exp_ineq1 3 ltac:(lra)); lra).
+  assert (E : exp (- (1)) = exp (- (4)) * exp 3) by (rewrite <- exp_plus; f_equal; ring).
+  pose proof (exp_pos (- (4))) as Hp. rewrite E. intros H.
+  assert (H' : exp (- (4)) * exp 3 = 4 * exp (- (4))) by lra. nra.
 Qed.
 
 Lemma wiring_cauchy loc scale x : 0 < scale ->
@@ -214,12 +218,34 @@ Proof.
   assert (Hmu : mhn_mu 5 1 3 = (3 + sqrt 41) / 4).
   { unfold mhn_mu. replace (3 * 3 + 8 * 1 * (5 - 1)) with 41 by ring. field. }
   rewrite Hmu. unfold mhn_norm_logacc.
-  repeat split; try lra; try interval.
+  (* mu >= 2 because sqrt 41 >= 5, and ln 2 > 1/3 because exp(1/3)^3 = e <= 3 < 8 *)
+  assert (Hs : 5 <= sqrt 41).
+  { replace 5 with (sqrt (5 * 5)) by (rewrite sqrt_square; lra). apply sqrt_le_1_alt. lra. }
+  assert (Hm2 : 2 <= (3 + sqrt 41) / 4) by lra.
+  assert (He : exp (/ 3) < 2).
+  { destruct (Rlt_or_le (exp (/ 3)) 2) as [H|H]; [exact H|exfalso].
+    assert (E : exp (/ 3) * exp (/ 3) * exp (/ 3) = exp 1) by (rewrite <- !exp_plus; f_equal; field).
+    pose proof exp_le_3. nra. }
+  assert (Hl2 : / 3 < ln 2).
+  { rewrite <- (ln_exp (/ 3)). apply ln_increasing; [apply exp_pos | exact He]. }
+  assert (Hl : / 3 < ln ((3 + sqrt 41) / 4)).
+  { destruct (Req_dec ((3 + sqrt 41) / 4) 2) as [-> | Hne]; [exact Hl2|].
+    apply Rlt_trans with (ln 2); [exact Hl2 | apply ln_increasing; lra]. }
+  repeat split; lra.
 Qed.
 
 (* the guard is satisfiable (non-vacuity): alpha = 3, beta = 3, gamma = 3 gives mu < 1 *)
 Lemma mhn_normal_guard_example : (3 - 2) * ln (mhn_mu 3 3 3) <= 0.
-Proof. unfold mhn_mu. interval. Qed.
+Proof.
+  unfold mhn_mu. replace (3 * 3 + 8 * 3 * (3 - 1)) with 57 by ring.
+  assert (Hs : sqrt 57 <= 9).
+  { replace 9 with (sqrt (9 * 9)) by (rewrite sqrt_square; lra). apply sqrt_le_1_alt. lra. }
+  assert (H0 : 0 <= sqrt 57) by apply sqrt_pos.
+  assert (Hle : ln ((3 + sqrt 57) / (4 * 3)) <= 0).
+  { rewrite <- ln_1. destruct (Req_dec ((3 + sqrt 57) / (4 * 3)) 1) as [-> | Hne]; [lra|].
+    left. apply ln_increasing; lra. }
+  lra.
+Qed.
 
 (* ================= deepening round ================= *)
 (* ---------------- InverseGamma ---------------- *)
